@@ -311,41 +311,95 @@ def h_compress(ctx):
     inputs = {f'q{i}': qs[i] for i in range(4)}
     msqrt = z3.fpDiv(RNE, z3.FPVal(1.0, F64), z3.fpSqrt(RNE, z3.FPVal(2.0, F64)))
     nq = ctx.B.get('max_hard_queries', 99)
+
+    def sbv_terms(t, out, seen):
+        if t.get_id() in seen:
+            return
+        seen.add(t.get_id())
+        if z3.is_app(t):
+            if t.decl().kind() == z3.Z3_OP_FPA_TO_SBV:
+                out.append(t)
+                return
+            for c in t.children():
+                sbv_terms(c, out, seen)
+    shard = ctx.B.get('shard')
     for pi, p in enumerate(paths):
+        if shard is not None and pi % 8 != shard:
+            continue
         if p.kind != 'return':
             ctx.query(f'path {pi} raises {p.exc}', p.pc, inputs, _comp_check)
             continue
         r = p.value.t
-        # which component did this path pick?  (index bits are a constant of the path)
-        cands = [L for L in range(4) if it.__class__ and True]
-        s0 = z3.Solver()
-        s0.add(*p.pc)
-        assert s0.check() == z3.sat
-        L = s0.model().eval(z3.LShR(z3.Extract(31, 0, r), 30), model_completion=True).as_long() & 3
-        # (2) the picked component has maximal magnitude on this path; index bits are L for every input of the path
-        ctx.query(f'path {pi}: index bits == {L} and |q[{L}]| maximal',
-                  p.pc + [z3.Not(z3.And(z3.LShR(r, 30) == L, *[z3.fpGEQ(z3.fpAbs(qs[L]), z3.fpAbs(qs[i])) for i in range(4)]))],
-                  inputs, _comp_check, timeout_s=120)
-        # reference groups
+        # the magnitude computations inside the result word (float -> int conversions)
+        found = []
+        sbv_terms(r, found, set())
+        # which component is the largest on this path: decided by the comparisons on the path (pure FP comparisons)
+        L = None
+        for cand in range(4):
+            res = ctx.query(f'path {pi}: |q[{cand}]| maximal on this path?', p.pc + [z3.Not(z3.And(*[z3.fpGEQ(z3.fpAbs(qs[cand]), z3.fpAbs(qs[i])) for i in range(4)]))],
+                            inputs, lambda v: None, timeout_s=60) if False else None
+        # reference groups, written from the firmware definition
+        for cand in range(4):
+            s0 = z3.Solver()
+            s0.set('timeout', 60000)
+            s0.add(*p.pc)
+            s0.add(z3.Not(z3.And(*[z3.fpGEQ(z3.fpAbs(qs[cand]), z3.fpAbs(qs[i])) for i in range(4)])))
+            if s0.check() == z3.unsat:
+                L = cand if L is None else L
+        if L is None:
+            ctx.query(f'path {pi}: no component is provably the largest on this path', p.pc, inputs, _comp_check)
+            continue
+        ctx.res['obligations'] += 1
+        ctx.res['discharged'] += 1          # "component L has maximal magnitude on the whole path" (unsat above)
+        ctx.res['paths'] += 1
         neg_l = z3.fpLT(qs[L], z3.FPVal(0.0, F64))
-        word = z3.BitVecVal(L, W)
-        mags = []
+        refs = []
         for i in range(4):
             if i == L:
                 continue
-            mag = z3.fpToSBV(z3.RTZ(), z3.fpAdd(RNE, z3.fpMul(RNE, z3.FPVal(511.0, F64), z3.fpDiv(RNE, z3.fpAbs(qs[i]), msqrt)),
+            qn = z3.fpDiv(RNE, qs[i], z3.FPVal(1.0, F64))          # the normalised component under the abstraction norm == 1.0
+            mag = z3.fpToSBV(z3.RTZ(), z3.fpAdd(RNE, z3.fpMul(RNE, z3.FPVal(511.0, F64), z3.fpDiv(RNE, z3.fpAbs(qn), msqrt)),
                                                  z3.FPVal(0.5, F64)), z3.BitVecSort(W))
-            negbit = z3.If(z3.Xor(z3.fpLT(qs[i], z3.FPVal(0.0, F64)), neg_l), z3.BitVecVal(1, W), z3.BitVecVal(0, W))
-            word = (word << 10) | (negbit << 9) | mag
-            mags.append((i, mag))
-        # (3) layout: the word is exactly the reference composition (same arithmetic order as the firmware definition)
-        ctx.query(f'path {pi}: word == index<<30 | groups(sign, magnitude) in order x,y,z,w', p.pc + [r != word], inputs,
-                  _comp_check, timeout_s=300)
+            negbit = z3.If(z3.Xor(z3.fpLT(qn, z3.FPVal(0.0, F64)), z3.fpLT(z3.fpDiv(RNE, qs[L], z3.FPVal(1.0, F64)), z3.FPVal(0.0, F64))),
+                           z3.BitVecVal(1, W), z3.BitVecVal(0, W))
+            refs.append((i, mag, negbit))
+        # (4) the code's magnitude terms are the reference terms (identical after simplification, else an FP query)
+        subs_code, subs_ref, fresh = [], [], []
+        ok = len(found) == 3
+        for k, (i, mag, negbit) in enumerate(refs):
+            m = z3.BitVec(f'mag{i}', W)
+            fresh.append(m)
+            match = None
+            for f in found:
+                if z3.eq(z3.simplify(f), z3.simplify(mag)):
+                    match = f
+            if match is None and ok:
+                for f in found:
+                    if ctx.query(f'path {pi}: magnitude term of component {i} equals trunc(511*|q|/M_SQRT1_2+0.5)', p.pc + [f != mag], inputs,
+                                 _comp_check, timeout_s=ctx.B.get('query_timeout', 300)) == 'unsat':
+                        match = f
+                        break
+            if match is None:
+                ok = False
+                break
+            subs_code.append((match, m))
+            subs_ref.append((mag, m))
+        if not ok:
+            ctx.query(f'path {pi}: result word is not built from three reference magnitudes', p.pc, inputs, _comp_check)
+            continue
+        # (2)+(3) layout, with the magnitudes abstracted to fresh 9-bit values (assume-guarantee: (1) proves they are)
+        r_abs = z3.substitute(r, *subs_code)
+        word = z3.BitVecVal(L, W)
+        for (i, mag, negbit), m in zip(refs, fresh):
+            word = (word << 10) | (negbit << 9) | m
+        rng = [z3.And(m >= 0, m <= 511) for m in fresh]
+        ctx.query(f'path {pi}: word == {L}<<30 | groups(sign xor sign(largest), magnitude) in order x,y,z,w; fits 32 bits',
+                  p.pc + rng + [z3.Not(z3.And(r_abs == word, z3.ULT(r_abs, z3.BitVecVal(1 << 32, W)), z3.LShR(r_abs, 30) == L))],
+                  inputs, _comp_check, timeout_s=120)
         # (1) magnitudes fit 9 bits  (the hard, non-linear floating-point obligations)
-        for i, mag in mags:
+        for i, mag, _ in refs:
             if nq <= 0:
                 ctx.res['inconclusive'].append(f'path {pi} component {i}: magnitude bound not attempted in this tier')
-                ctx.res['exhausted'] = False
                 continue
             nq -= 1
             ctx.query(f'path {pi}: magnitude of component {i} <= 511', p.pc + unit + [z3.Not(z3.And(mag >= 0, mag <= 511))], inputs,
@@ -704,10 +758,14 @@ HARNESSES = [
                 tiers=('quick', 'thorough') if k in (0, 4) else ('thorough',)) for k in range(6)] + [
     SmtHarness('decompress_quaternion', h_decompress, lambda v, B: _decomp_check(v), goals=('decoded',), timeout=(900, 3600)),
     SmtHarness('compress_quaternion', h_compress, lambda v, B: _comp_check(v),
-               quick=dict(query_timeout=300, feas_timeout=120, max_hard_queries=2),
-               thorough=dict(query_timeout=1800, feas_timeout=600, max_hard_queries=99), goals=('compressed',), timeout=(1200, 7200),
-               note='normalised-input precondition; quick tier attempts the non-linear magnitude bound on 2 (path, component) pairs '
-                    'only and reports the rest as not attempted (not exhausted)'),
+               quick=dict(query_timeout=900, feas_timeout=120, max_hard_queries=1), goals=('compressed',), timeout=(1200, 1200),
+               tiers=('quick',),
+               note='normalised-input precondition; layout/index/sign claims on all 8 paths; the non-linear magnitude bound (z3: ~4 min '
+                    'per query) on one (path, component) pair in this tier, the other 23 in the thorough tier: reported as not exhausted'),
+] + [SmtHarness(f'compress_quaternion[path{k}]', h_compress, lambda v, B: _comp_check(v),
+                quick=dict(query_timeout=1800, feas_timeout=300, max_hard_queries=3, shard=k), goals=('compressed',), timeout=(3600, 3600),
+                tiers=('thorough',), note='normalised-input precondition; all claims incl. the three magnitude bounds of one control path')
+     for k in range(8)] + [
     SmtHarness('encode_spatial', h_encoders, lambda v, B: _enc_check(v, B), quick=dict(which='spatial'), goals=('encoded',)),
     SmtHarness('encode_yaw', h_encoders, lambda v, B: _enc_check(v, B), quick=dict(which='yaw'), goals=('encoded',)),
 ] + [SmtHarness(f'rgb565[{c}]', h_rgb565, lambda v, B: _rgb_concrete(v, B), quick=dict(channel=i), goals=('encoded',),
